@@ -83,6 +83,13 @@ def gen_shim(meta, canaries=None):
         for i, h in enumerate(hooks):
             A(f"    s->{h}_hook = shim_hook_{i};")
     A("}")
+    A("void shim_poison(void *st, int fill) {")
+    A(f"    {T} *s = ({T} *)st; (void)s; (void)fill;")
+    for o in outs:
+        if o["type"] in ("STR", "RAW"):
+            A(f"    memset(&s->c.{o['name']}, fill, sizeof(s->c.{o['name']}));")
+            A(f"    memset(&s->{o['name']}_counter, fill, sizeof(s->{o['name']}_counter));")
+    A("}")
     A("const char *shim_hook_name(int idx) {")
     A("    switch (idx) {")
     for i, h in enumerate(hooks):
